@@ -235,11 +235,11 @@ def parse_raw_http(data: bytes) -> Union[HttpRequest, HttpResponse]:
     method, uri, _version = parts
 
     # sanitize uri bytes for `urlparse()` to avoid possible decode errors
-    uri = uri.decode("ascii", errors="ignore").encode()
     # (urlsplit instead of urlparse, so that a `;` in the last path segment stays part of the path)
-    result = urlsplit(uri)
-    uri = result.path
-    params = dict(parse_qsl(result.query))
+    result = urlsplit(uri.decode("ascii", errors="ignore"))
+    uri = result.path.encode()
+    # percent-encoded bytes are decoded as latin-1 so that every byte value survives the round trip to bytes
+    params = {k.encode("latin-1"): v.encode("latin-1") for k, v in parse_qsl(result.query, encoding="latin-1")}
     return HttpRequest(method=method, body=body, headers=headers, uri=uri, params=params)
 
 
